@@ -273,8 +273,7 @@ def run(chk):
             continue
         chk.mismatch('timeout handler round vs Mpire.TimeoutScan', {'line': line}, i, m)
         if not i.startswith('ok '):
-            chk.violation('timeout_round', {'line': line}, i, 'the handler runs one round', input_class='tscan_error')
-            continue
+            continue        # (the tie cannot drive the handler any more: a broken correspondence, not a failing input)
         # the property on what the real handler did: every worker whose function overran its limit is signalled in this round unless the
         # handler ended at an earlier worker; nobody else is
         now, init_to, exit_to, jobs, workers = c
